@@ -634,6 +634,36 @@ def ob_threads():
     return held("%d arrays x 2 repetitions bitwise identical under 1, 2, 7, 16 threads (JIT on)" % (len(ref) // 2))
 
 
+def ob_sort_native(gridname):
+    """bounded link: on real spaces (all kinds, whole grid and segments) the contract of _sort_elements_by_color (requires, ensures and the assumed slice-range fact:
+    the number of coloured elements equals number_of_support_elements) holds for the arrays the real method produces."""
+    import importlib
+    import bempp_cl.api as api
+    from vlib import vnative as VN, zoo as Z
+
+    c = importlib.import_module("contracts.dofmap_blocks").BLOCKS["_sort_elements_by_color"]["contract"]
+    grid = Z.grid_with_domains(gridname)
+    n = 0
+    for kind, deg in (("DP", 0), ("DP", 1), ("P", 1), ("RWG", 0), ("SNC", 0)):
+        for kw in ({}, {"segments": [2]}, {"segments": [1, 2]}, {"support_elements": [0, 3, 4]}):
+            if kind != "DP":
+                kw = dict(kw, include_boundary_dofs=True)
+            sp = api.function_space(grid, kind, deg, **kw)
+            srt, ptr = sp.get_elements_by_color()
+            cm = np.asarray(sp.color_map).astype(int)
+            env = {"color_map": cm, "number_of_support_elements": int(sp.number_of_support_elements), "result_0": np.asarray(srt).astype(int),
+                   "result_1": np.asarray(ptr).astype(int)}
+            for t in c["requires"] + c["ensures"]:
+                if not VN.evaluate(t, env):
+                    return violated("%s%d %s on %s: contract clause of _sort_elements_by_color fails on the real arrays: %s" % (kind, deg, kw, gridname, t[:120]),
+                                    witness={"grid": gridname, "kind": kind, "kw": kw}, signature="sort-colours/native", replay={"confirmed": True})
+            if int((cm >= 0).sum()) != int(sp.number_of_support_elements) or len(srt) != int(sp.number_of_support_elements):
+                return violated("%s%d %s on %s: number of coloured elements differs from number_of_support_elements" % (kind, deg, kw, gridname), signature="sort-colours/cardinality",
+                                replay={"confirmed": True})
+            n += 1
+    return held("%d spaces" % n)
+
+
 def main():
     run = Run("C16", "other")
     thorough = run.tier == "thorough"
@@ -678,6 +708,14 @@ def main():
     # every element listed under one of the element's dofs; all other colours are unchanged
     for blk in ("_colour_step_ns1", "_colour_step_ns3"):
         VR.add_block(run, "contracts.dofmap_blocks", blk)
+    # the launch batches: FunctionSpace._sort_elements_by_color as a whole (V-engine, all sizes): batch c holds elements of colour c only, each once, and every
+    # coloured element is in its batch; np.where / slice stores are modelled by their defining properties
+    VR.add_block(run, "contracts.dofmap_blocks", "_sort_elements_by_color")
+    for gname in ("octa", "screen2") + (("cube12", "screen3") if thorough else ()):
+        run.add("_sort_elements_by_color::native[%s]" % gname, "bounded", ob_sort_native, gname)
+    run.add("_sort_elements_by_color::canary", "cover", VR.ob_block_canary, "contracts.dofmap_blocks", "_sort_elements_by_color",
+            [("color_map == color", "color_map != color"), ("count += colors_length", "count += 0"), ("indexptr[index + 1] = count", "indexptr[index] = count"),
+             ("sorted_indices[count:count + colors_length] = colors", "sorted_indices[0:colors_length] = colors"), ("ncolors = 1 + max(color_map)", "ncolors = max(color_map)")])
     # hypothesis "inverse" of lemma B: invert_local2global (V-engine, all sizes)
     VR.add_function(run, "bempp_cl.api.space.space", "invert_local2global", "contracts.space_maps",
                     [{"local2global_map": [[0, 1, 2], [2, 1, 3]], "local_multipliers": [[1, 1, 0], [1, -1, 1]]}, {"local2global_map": [[1, 1], [0, 1]], "local_multipliers": [[0, 1], [1, 0]]}])
